@@ -329,11 +329,13 @@ class Recorder:
             st['wseen'] += 1
             m = str(w.message)
             if 'integer/binary domains' in m:
-                mm = re.search(r'Variables \[(.*?)\] have', m)
-                got = sorted(x.strip() for x in mm.group(1).split(',')) if mm else []
+                mm = re.search(r'Variables \[(.*)\] have', m)
+                got = mm.group(1) if mm else ''
                 vs = variables_of(self.exprs(prob))
-                want = sorted(n for n, v in vs.items() if v.domain != 'continuous')
-                self.emit(prob, ev='Warn', namesOK=got == want)
+                want = sorted((n for n, v in vs.items() if v.domain != 'continuous'), key=natkey)
+                # names may contain commas (D[0,1]): compare the rendered list, in any order of the names
+                ok = got == ', '.join(want) or sorted(got.replace(' ', '')) == sorted(''.join(want) + ',' * (len(want) - 1))
+                self.emit(prob, ev='Warn', namesOK=bool(ok))
 
     def uninstall(self):
         import scipy.optimize
